@@ -250,6 +250,90 @@ Definition holding (p : pc) : bool :=
 Definition quiescent (s : state) : Prop :=
   forall t, pcs s t = Idle \/ exists r, pcs s t = Done r.
 
+(* ---------- replay of a visible schedule ----------
+   What the harness sees between two quiescent points of the real code: a caller
+   starts (VG), the main caller's index GET / PUT / DELETE is answered (VP / VU / VD,
+   flag = failed).  The lock regions in between are inserted where the code performs
+   them; [obs] logs the batch handed to update and the body of every PUT. *)
+Inductive vis := VG (t : tid) | VP (t : tid) (f : bool) | VU (t : tid) (f : bool) | VD (t : tid) (f : bool).
+Inductive obs := OBatch (main : tid) (ms : list tid) | OPut (main : tid) (new : index).
+
+(* complete / release for callers 0..n-1 (ascending), one pass *)
+Fixpoint settle_pass (sg : bool) (n : nat) (s : state) : option (state * bool) :=
+  match n with
+  | O => Some (s, false)
+  | S k =>
+      match settle_pass sg k s with
+      | None => None
+      | Some (s1, ch) =>
+          match pcs s1 k with
+          | Completing _ => match step sg s1 (EComplete k) with Some s2 => Some (s2, true) | None => None end
+          | Ret _ => match step sg s1 (EDone k) with Some s2 => Some (s2, true) | None => None end
+          | _ => Some (s1, ch)
+          end
+      end
+  end.
+
+Fixpoint settle (sg : bool) (n fuel : nat) (s : state) : option state :=
+  match fuel with
+  | O => Some s
+  | S f => match settle_pass sg n s with
+           | None => None
+           | Some (s1, true) => settle sg n f s1
+           | Some (s1, false) => Some s1
+           end
+  end.
+
+Definition vis_step (sg : bool) (changes : list change) (acc : state * list obs) (v : vis)
+  : option (state * list obs) :=
+  let (s, log) := acc in
+  let n := length changes in
+  let r :=
+    match v with
+    | VG t => match run sg s [EGet t (nth t changes (Add empty_desc)); EAssign t] with
+              | Some s1 => Some (s1, log) | None => None end
+    | VP t f =>
+        match run sg s [ERecvMain t; EPrepare t f] with
+        | Some s1 =>
+            let log1 := match pcs s1 t with
+                        | Prepared (Some _) => log ++ [OBatch t (batch s1)]
+                        | _ => log
+                        end in
+            match step sg s1 (ECommit t) with Some s2 => Some (s2, log1) | None => None end
+        | None => None
+        end
+    | VU t f =>
+        let log1 := match pcs s t with NeedPut nw _ => log ++ [OPut t nw] | _ => log end in
+        match step sg s (EPut t f) with Some s1 => Some (s1, log1) | None => None end
+    | VD t f => match step sg s (EDel t f) with Some s1 => Some (s1, log) | None => None end
+    end in
+  match r with
+  | Some (s1, log1) => match settle sg n (2 * n + 2) s1 with Some s2 => Some (s2, log1) | None => None end
+  | None => None
+  end.
+
+Fixpoint run_vis (sg : bool) (changes : list change) (acc : state * list obs) (vs : list vis)
+  : option (state * list obs) :=
+  match vs with
+  | [] => Some acc
+  | v :: vs' => match vis_step sg changes acc v with
+                | Some acc' => run_vis sg changes acc' vs'
+                | None => None
+                end
+  end.
+
+Definition res_of (p : pc) : option result := match p with Done r => Some r | _ => None end.
+
+(* results of the callers, final index (keys), logged observations *)
+Definition vis_summary (sg : bool) (r0 : option index) (changes : list change) (vs : list vis)
+  : option (list (option result) * option (list N) * list obs) :=
+  match run_vis sg changes (init r0 [], []) vs with
+  | Some (s, log) =>
+      Some (map (fun t => res_of (pcs s t)) (seq 0 (length changes)),
+            match reg s with Some l => Some (map dkey l) | None => None end, log)
+  | None => None
+  end.
+
 (* ---------- SetReferrersCapability: compare-and-swap on a 3-valued state ---------- *)
 Inductive cap := CapUnknown | CapSupported | CapUnsupported.
 Definition cap_of (b : bool) : cap := if b then CapSupported else CapUnsupported.
